@@ -2,6 +2,7 @@
 from harness import gen_c12 as GC
 from harness.impl_genbank import impl_gb_op, enc_coll, enc_rec
 
+DECOY_TWINS = {"quick": 0.02, "thorough": 0.05}     # engine: decoy twins (harness/decoy.py)
 ID = "C12"
 LEAN_MODULE = "BioCantor.Props.C12"
 DESIGN_REF = "4/C12"
